@@ -65,3 +65,26 @@ def run_driver(module, args, timeout, env=None):
         except OSError:
             pass
     return rc, data, text
+
+
+class DriverCrash(Exception):
+    """a real-process driver died of an exception raised *inside billiard* by a call that is valid
+    on the unchanged tree: an observation about the code under test, not a machinery failure"""
+
+    def __init__(self, what, log):
+        Exception.__init__(self, what)
+        self.what, self.log = what, log
+
+
+def driver_failed(name, rc, log):
+    """Raise DriverCrash if the driver's last traceback ends in the repository's billiard package
+    (the checks report it as a violation), RuntimeError (machinery failure) otherwise."""
+    repo = os.path.realpath(os.environ.get('VERIF_REPO', '/repo'))
+    files = [l.strip() for l in log.splitlines() if l.strip().startswith('File "')]
+    last_exc = [l for l in log.splitlines() if l and not l.startswith((' ', 'Traceback', 'During', 'The above'))]
+    if rc not in (0, 'timeout') and files:
+        inner = files[-1].split('"')[1]
+        if os.path.realpath(inner).startswith(os.path.join(repo, 'billiard') + os.sep):
+            raise DriverCrash('%s driver: a call that works on the unchanged tree raised inside billiard: %s (%s)'
+                              % (name, last_exc[-1][:200] if last_exc else '?', files[-1][:160]), log[-3000:])
+    raise RuntimeError('%s driver failed (rc=%s): %s' % (name, rc, log[-1500:]))
